@@ -141,4 +141,20 @@ theorem step_nested_of_canceled (c : Cfg) (s : State) (id : Nat) (inner : List N
         · rfl
     · rfl
 
+/-- join tracking (`_completed_branches` of a downstream join) writes the downstream row with its status unchanged -/
+theorem joinTracking_keeps_status (c : Cfg) (s : State) (i : Nat) (txn : Txn) (ht : txn ∈ joinTracking c s i)
+    (j : Nat) (st' : StageSt) (he : Eff.setStage j st' ∈ txn) : st'.status = (s.stage j).status := by
+  unfold joinTracking at ht
+  simp only [List.mem_filterMap] at ht
+  obtain ⟨d, _, hd⟩ := ht
+  split at hd
+  · split at hd
+    · cases hd
+    · simp only [Option.some.injEq] at hd
+      subst hd
+      simp only [List.mem_singleton, Eff.setStage.injEq] at he
+      obtain ⟨rfl, rfl⟩ := he
+      rfl
+  · cases hd
+
 end Stab.Engine
